@@ -233,6 +233,7 @@ class Gen:
         self.next_w = 1
         self.live_w = []
         self.names = ["n1", "n2", "n3"]
+        self.script = self.make_script() if alphabet in ("c17", "c18") and rng.random() < 0.3 else []
 
     def new_w(self):
         w = self.next_w
@@ -265,9 +266,56 @@ class Gen:
             return fmt_id(k)
         return r.choice(["#99", "n9"])
 
+    def make_script(self):
+        """directed openings; the random generator takes over afterwards.
+        fill-disturb-drain: several queued jobs of mixed priority in one channel, one of them killed / re-added under its id /
+        timed out while queued, then the queue is drained (the order of the pulls is what the oracle judges).
+        drop-newest-restart: the newest job finishes with an error, outlives its (capped) time to live, is dropped by the
+        watchdog; then the server restarts and takes a new job."""
+        r = self.rng
+        ops = []
+        if r.random() < 0.65:
+            n = r.randint(3, 5)
+            ids = []
+            for i in range(n):
+                jid = self.names[i] if i < 3 else "-"
+                ids.append(jid)
+                ops.append(f"add 0 {r.choice([0, 1, 2, -1, 0])} {jid} {r.choice([50, 120, 200])} {i}")
+            for _ in range(r.randint(1, 2)):
+                k = r.random()
+                victim = r.choice([x for x in ids if x != "-"])
+                if k < 0.5:
+                    ops.append(f"kill 9 {victim}")
+                    if r.random() < 0.8:
+                        ops.append(f"add 0 {r.choice([0, 1, 2])} {victim} 120 7")
+                elif k < 0.8:
+                    ops.append(f"tick {r.choice([60, 130])}")
+                else:
+                    ops.append(f"add 0 {r.choice([0, 1])} {victim} 50 8")
+            for i in range(n + 1):
+                ops += [f"pull {20 + i} 0", "run"]
+        else:
+            ops += ["add 0 0 - 50 1", "add 0 0 - 50 2"]
+            if r.random() < 0.5:
+                ops.append("add 1 0 - 50 3")
+            newest = 3 if len(ops) == 3 else 2
+            ch = 1 if newest == 3 else 0
+            ops += [f"pull 1 {ch}", "run"]
+            if newest == 2:
+                ops += ["pull 2 0", "run", f"finish 2 #{newest} - s1"]
+            else:
+                ops += [f"finish 1 #{newest} - s1"]
+            ops += ["tick 40", "watchdog", "tick 40", "watchdog", "restart", "add 0 0 - 50 4", "pull 5 0,1", "run"]
+        return ops
+
     def next(self, sim):
         r = self.rng
         wq = sim.workq
+        if self.script:
+            op = self.script.pop(0)
+            if op == "restart":
+                self.live_w = []
+            return op
         weights = {
             "add": 5 if wq.count < self.max_jobs else 0.3,
             "pull": 5,
